@@ -160,7 +160,7 @@ func preamble(rsEmpty bool) []op {
 	return []op{{K: "P", T: recSep}, {K: "R", T: ""}, {K: "P", T: rs}}
 }
 
-var modKinds = []string{"suba", "gsuba", "app", "incr", "add2", "id", "idsv"}
+var modKinds = []string{"suba", "gsuba", "subempty", "subsame", "gsubsame", "app", "incr", "add2", "id", "idsv"}
 
 // values for field assignments: they contain the usual separators (so that the field list is no
 // longer the split of the rebuilt $0), or are the text the typing probe looks for
@@ -340,6 +340,46 @@ func sameTextScript(r *hx.Rand) script {
 	return script{Ops: ops}
 }
 
+// subScript: sub()/gsub() with a field or $0 as target, on records whose $0 is not the
+// canonical OFS-join of its fields (runs of blanks, OFS changed since, CSV/TSV output mode) or
+// after an FS change.  A substitution that was made (n > 0) is an assignment to the target --
+// $0 rebuilt with OFS, NF extended, $0 re-split with the FS in force -- also when the text it
+// stores equals the old one; no substitution (n = 0) changes nothing.
+func subScript(r *hx.Rand) script {
+	reg := regimes[r.Intn(len(regimes))]
+	ops := preamble(r.Intn(8) == 0)
+	if reg.fs.K != "" {
+		ops = append(ops, reg.fs)
+	}
+	rec := []string{"a  b   c", " ab\tb ", reg.rec, strings.ReplaceAll(reg.rec, "10", "b"), "b" + reg.ofs + reg.ofs + "b"}[r.Intn(5)]
+	ops = append(ops, op{K: "R", T: rec})
+	if r.Bool() {
+		ops = append(ops, op{K: "V"})
+	}
+	switch r.Intn(4) {
+	case 0:
+		ops = append(ops, op{K: "O", T: "-"})
+	case 1:
+		ops = append(ops, op{K: "O", T: reg.ofs + reg.ofs})
+	case 2:
+		ops = append(ops, op{K: "U", T: []string{"c", "t"}[r.Intn(2)]})
+	}
+	targets := []idx{{Kind: 'c', X: 1, Lit: true}, {Kind: 'c', X: 2}, {Kind: 'c', X: 3, Lit: true}, {Kind: 'c', X: 5}, {Kind: 'c', X: -1},
+		{Kind: 'n', D: 0}, {Kind: 'n', D: 2}, {Kind: 'c', X: 0}, {Kind: 'c', X: 0, Lit: true}}
+	kinds := []string{"subempty", "subsame", "gsubsame", "subempty", "suba", "gsuba"}
+	for k := 1 + r.Intn(3); k > 0; k-- {
+		t := targets[r.Intn(len(targets))]
+		if t.Kind == 'c' && float64(t.X) == 0 && r.Bool() {
+			ops = append(ops, randFS(r)) // FS changed before a sub on $0: the re-split uses the new FS
+		}
+		ops = append(ops, op{K: "M", I: t, T: kinds[r.Intn(len(kinds))]}, op{K: "V"}, op{K: "G", I: idx{Kind: 'n', D: 1}})
+		if r.Intn(3) == 0 {
+			ops = append(ops, op{K: "T", I: smallIdx[r.Intn(3)]})
+		}
+	}
+	return script{Ops: ops}
+}
+
 // typingScript: several records; fields (and NF, $0) assigned in earlier ones; the typing probe
 // on the same positions in later ones.  A field that comes from input compares as a number
 // when it looks like one, whatever was assigned at that position in an earlier record.
@@ -403,6 +443,7 @@ func alphabet() []op {
 		{K: "S", I: c(2), T: "Z W"},
 		{K: "S", I: c(1), T: "10"},
 		{K: "M", I: c(0), T: "id"},
+		{K: "M", I: c(2), T: "subempty"},
 		{K: "T", I: c(1)},
 		{K: "S", I: idx{Kind: 'n', D: 2}, T: "W"},
 		{K: "S", I: c(-1), T: "Q"},
@@ -466,6 +507,11 @@ func fixedScripts() []script {
 		mk(op{K: "R", T: "p q"}, V, op{K: "W", V: 4, VS: "4"}, op{K: "M", I: c(0), T: "idsv"}, V),
 		mk(fsText(","), op{K: "O", T: ","}, op{K: "R", T: "a,b"}, V, op{K: "S", I: c(2), T: "u,v"}, op{K: "S", I: c(0), T: "a,u,v"}, V),
 		mk(op{K: "R", T: "p q"}, V, op{K: "S", I: c(1), T: "x y"}, op{K: "R", T: "x y q"}, V),
+		// a substitution that matches without changing the text is still an assignment
+		mk(op{K: "O", T: "-"}, op{K: "R", T: "a  b   c"}, op{K: "M", I: c(2), T: "subsame"}, V),
+		mk(op{K: "R", T: "a b c"}, V, op{K: "M", I: c(5), T: "subempty"}, V),
+		mk(op{K: "R", T: "a:b c"}, V, fsText(":"), op{K: "M", I: idx{Kind: 'c', X: 0, Lit: true}, T: "subempty"}, op{K: "G", I: c(1)}, V),
+		mk(op{K: "R", T: "a  b"}, op{K: "M", I: c(1), T: "subsame"}, V), // no b in $1: nothing happens
 		// flags of an earlier record do not survive into the next one
 		mk(op{K: "R", T: "10 10"}, op{K: "S", I: c(1), T: "10"}, op{K: "T", I: c(1)}, op{K: "R", T: "10 10"}, op{K: "T", I: c(1)}, op{K: "T", I: c(2)}),
 		mk(op{K: "R", T: "b 10"}, op{K: "S", I: c(3), T: "10"}, op{K: "R", T: "10 10 10"}, op{K: "T", I: c(3)}, op{K: "T", I: c(0)}),
@@ -499,6 +545,8 @@ func genScripts(o hx.Opts, r *hx.Rand) []script {
 			out = append(out, sameTextScript(r))
 		case i%10 == 7:
 			out = append(out, typingScript(r))
+		case i%10 == 5:
+			out = append(out, subScript(r))
 		default:
 			out = append(out, randScript(r, i < big))
 		}
